@@ -700,6 +700,11 @@ class Engine(object):
                 self.release(g, spec)
             else:
                 self.exhausted_choice = True
+        elif kind == 'release_kind':
+            # directed histories: release the n-th pending gate of one kind (get, relay, set_timestamp, load, ...)
+            cands = [g for g in self.pending if g.kind == action[1]]
+            if cands:
+                self.release(cands[int(action[2]) % len(cands)], action[3] if len(action) > 3 else None)
         elif kind == 'fault':
             # one of the storage operations that record the outcome of an attempt fails with an I/O error
             cands = [g for g in self.pending if g.kind in FAULTABLE]
